@@ -27,6 +27,20 @@ def reference_args(cases):
     return {k: (v[1], v[2]) for k, v in best.items()}
 
 
+def alt_args(cases):
+    """a second constructible argument set per class, as different from the reference as the cases offer:
+    the one with the fewest non-zero arguments (flags off, small values)"""
+    worst = {}
+    for c in cases:
+        if not c["ctor"] or c["refuse"] or (c["ph"] in ("in_alloc",) and c["dinlen"] > 70000):
+            continue
+        a = cmds.int_args(c["a"])
+        score = sum(1 for v in a.values() if v) * 1000 + sum(bin(v).count("1") for v in a.values() if v < 2 ** 16)
+        if c["cls"] not in worst or score < worst[c["cls"]][0]:
+            worst[c["cls"]] = (score, a, c)
+    return {k: (v[1], v[2]) for k, v in worst.items()}
+
+
 class Ref(object):
     """what a class encodes/decodes in isolation (validated against the spec by TLC)"""
 
@@ -95,6 +109,14 @@ def run(chk, replay=None):
         except Exception as ex:
             ev.cov.setdefault("classes_not_instantiable", []).append("%s: %s" % (name, ex))
     names = sorted(refs)
+    # the same class with other arguments is "another command" too
+    alts = alt_args(cases)
+    for name in list(names):
+        if phs[name] != "out_list" and name in alts and alts[name][0] != refs[name].a:
+            try:
+                refs[name + "#alt"] = Ref(name, refs[name].set, alts[name][0], phs[name], None, None)
+            except Exception:
+                pass
     events = []          # distinct observations, judged by TLC
     seen = set()
     meta = []
@@ -197,6 +219,12 @@ def run(chk, replay=None):
         for s in canon:
             play(s, {"A": a, "B": b})
         ev.case(("pair", a, b))
+    for a in names:                                      # a class and itself with other arguments, both orders
+        if a + "#alt" in refs:
+            for s in canon:
+                play(s, {"A": a, "B": a + "#alt"})
+                play(s, {"A": a + "#alt", "B": a})
+            ev.case(("pair", a, a + "#alt"))
     fam = [n for n in ("TestUnitReady", "Inquiry", "Read10", "Write16", "ReportLuns", "ATAPassThrough16",
                        "PersistentReserveOut", "ExtendedCopy4", "ReadCd", "ModeSense10") if n in refs]
     rng = random.Random(chk.seed)
